@@ -494,9 +494,9 @@ func runK2(c *core.Ctx) {
 	}
 	// the Load calls hand over exactly these objects
 	for _, r := range []struct {
-		pk         *packages.Package
-		recv, fn   string
-		want       []string
+		pk       *packages.Package
+		recv, fn string
+		want     []string
 	}{
 		{jd, "_Assembler", "Load", []string{"_FP_size", "_FP_args", "argPtrs", "localPtrs"}},
 		{x86, "Assembler", "Load", []string{"_FP_size", "_FP_args", "ArgPtrs", "LocalPtrs"}},
